@@ -78,7 +78,9 @@ Inductive expr :=
 | EPtrAdd (p e : expr)                 (* p + e on a char pointer *)
 | EPostDec (x : string)
 | EPreDec (x : string)
-| ELongMul (a b : expr).               (* (long)a * b on two ints: the product in 64 bits, which always holds it; only ever the offset of an fseek *)
+| ELongMul (a b : expr)
+| ESizeMul (a b : expr)                (* a * b carried out in size_t (64 bits, wraps) on two non-negative operands *)
+| EReadItems (p sz n : expr).          (* fread(p, sz, n, f) into the caller's memory (stream separate from the memory), sz > 0: as many bytes as the stream still has, at most sz * n; the number of complete items *)               (* (long)a * b on two ints: the product in 64 bits, which always holds it; only ever the offset of an fseek *)
 
 (* an argument of a call: a value; the address of an int local (&x); or a pointer parameter p of the
    caller handed on (the cell it points to is the caller's pseudo-variable "*p") *)
@@ -862,6 +864,37 @@ Fixpoint eval (e : expr) (s : state) : option (val * state) :=
                 | Some v' => match set_var x v' s with Some s1 => Some (v', s1) | None => None end
                 | None => None end
     | None => None
+    end
+  | ESizeMul a b =>
+    match eval a s with
+    | Some (VInt x, s1) =>
+      match eval b s1 with
+      | Some (VInt y, s2) => if (0 <=? x) && (0 <=? y) then Some (VInt ((x * y) mod 18446744073709551616), s2) else None
+      | _ => None
+      end
+    | _ => None
+    end
+  | EReadItems p sz n =>
+    match eval p s with
+    | Some (VPtr RIn o, s1) =>
+      match eval sz s1 with
+      | Some (VInt z, s2) =>
+        match eval n s2 with
+        | Some (VInt c, s3) =>
+          match lookup strm_var (vars s3) with
+          | Some (VBytes l) =>
+            if (0 <? z) && (0 <=? c) && (z * c <? 18446744073709551616) && (0 <=? o) && (o + z * c <=? Z.of_nat (List.length (inb s3))) then
+              let got := firstn (Z.to_nat (z * c)) l in
+              match set_var strm_var (VBytes (skipn (Z.to_nat (z * c)) l)) {| vars := vars s3; inb := upd_range (Z.to_nat o) got (inb s3); outb := outb s3 |} with
+              | Some s4 => Some (VInt (Z.of_nat (List.length got) / z), s4) | None => None end
+            else None
+          | _ => None
+          end
+        | _ => None
+        end
+      | _ => None
+      end
+    | _ => None
     end
   | ELongMul a b =>
     match eval a s with
